@@ -20,6 +20,18 @@
 (* statement fixes no precedence), the exact 4xx/5xx code is free, the      *)
 (* message texts are free, bodies of 4xx/5xx answers are free.              *)
 (*                                                                         *)
+(* Besides the body classes that are ill-formed, of a wrong version or of   *)
+(* a wrong element structure there are bodies whose only fault is ONE       *)
+(* LEXEME: the text at an attribute / value position of the indication      *)
+(* that the reader has to convert (a type name, a number, a boolean word,   *)
+(* a datetime, ...) is not in the language of that position.  They are      *)
+(* classified by (position, lexeme class), see LexAt.  The statement        *)
+(* promises for them what it promises for every request - exactly one       *)
+(* well-formed response, no dropped connection -; whether the answer is an  *)
+(* export ERROR ("wrong parameters"), a 4xx/5xx with CIMError ("malformed   *)
+(* XML") or, from a lenient reader, success is left open.  Lexemes that ARE *)
+(* in the language by every reading (Sure) make a valid indication.         *)
+(*                                                                         *)
 (* Environment of a request (e.env): the listener's indication queue has   *)
 (* capacity qcap (0 = unbounded); `drained` = the tester has SEEN, before   *)
 (* it sent this request, that every indication accepted so far was         *)
@@ -76,7 +88,9 @@ TypeLex == {"unknown", "numSuffix", "numTrailSp", "numTrailNl", "numPrefix",
 NumLex == {"hex", "hexPlus", "decPlus", "hexSuffix", "hexPrefix",
            "hexNoDigits", "hexHuge", "decSuffix", "decPrefix", "empty",
            "innerSpace", "word", "doubleSign", "outOfRange", "hugeDec",
-           "fraction", "exponent", "hugeExp", "nan", "inf", "underscore",
+           "hugeDecX",   \* more digits than Python's int() converts (4300)
+           "fraction", "bareDot", "exponent", "hugeExp", "nan", "inf",
+           "underscore",
            "uniDigits", "otherBase", "leadingZero", "padded", "nlInside",
            "nonLatin"}
 BoolLex == {"upper", "padded", "empty", "word", "digit", "suffix", "prefix",
@@ -85,7 +99,7 @@ DtLex == {"interval", "short", "long", "empty", "suffix", "prefix",
           "badMonth", "badDay", "badMinute", "badSep", "noSign", "letters",
           "uniDigits", "hugeOffset", "asterisks", "nonLatin"}
 C16Lex == {"empty", "two", "astral", "blank"}
-ASizeLex == {"word", "empty", "negative", "hex", "fraction", "huge",
+ASizeLex == {"word", "empty", "negative", "hex", "fraction", "huge", "hugeX",
              "suffix", "padded", "underscore", "uniDigits", "zero"}
 EmbAttrLex == {"unknown", "upper", "suffix", "padded", "empty", "boolWord",
                "nonLatin"}
